@@ -19,7 +19,7 @@
 #include "pitch_est_defines.h"
 
 /* ------------------------------------------------------------------ instrumented silk_NLSF2A
-   silk_NLSF2A is compiled HERE from the repo's own silk/NLSF2A.c (so every other caller inside the library,
+   silk_NLSF2A and silk_LPC_fit are compiled HERE from the repo's own silk/NLSF2A.c and silk/LPC_fit.c (so every other caller inside the library,
    e.g. silk_decode_parameters, links against this copy) with its calls of silk_LPC_fit, silk_bwexpander_32 and
    silk_LPC_inverse_pred_gain_c routed through wrappers.  The wrappers call the real library functions and
    count every `(opus_int16)` cast whose operand did not fit (re-computing the operand in 64 bits):
@@ -28,10 +28,17 @@
 static long verif_trunc = 0;
 static opus_int32 verif_snap[SILK_MAX_ORDER_LPC];
 static int verif_snap_n = -1;
+static opus_int32 verif_fit_snap[SILK_MAX_ORDER_LPC];      /* a_QIN as the final casts of silk_LPC_fit see it */
+static int verif_fit_calls = 0;                            /* bandwidth expansions done by the current silk_LPC_fit */
 static long long vrr64(long long a, int s) { return s == 1 ? (a >> 1) + (a & 1) : ((a >> (s - 1)) + 1) >> 1; }
 static void verif_LPC_fit(opus_int16 *a_QOUT, opus_int32 *a_QIN, const opus_int QOUT, const opus_int QIN, const opus_int d);
 static void verif_bwexpander_32(opus_int32 *ar, const opus_int d, opus_int32 chirp_Q16);
+static void verif_bwexp_fit(opus_int32 *ar, const opus_int d, opus_int32 chirp_Q16);
 static opus_int32 verif_inv_pred_gain(const opus_int16 *A_Q12, const opus_int order);
+/* silk_LPC_fit itself is compiled here too, so that its silk_bwexpander_32 calls can be observed */
+#define silk_bwexpander_32 verif_bwexp_fit
+#include "LPC_fit.c"
+#undef silk_bwexpander_32
 #define silk_LPC_fit verif_LPC_fit
 #define silk_bwexpander_32 verif_bwexpander_32
 #define silk_LPC_inverse_pred_gain_c verif_inv_pred_gain
@@ -40,13 +47,26 @@ static opus_int32 verif_inv_pred_gain(const opus_int16 *A_Q12, const opus_int or
 #undef silk_bwexpander_32
 #undef silk_LPC_inverse_pred_gain_c
 #undef QA
+static void verif_bwexp_fit(opus_int32 *ar, const opus_int d, opus_int32 chirp_Q16)
+{
+   silk_bwexpander_32(ar, d, chirp_Q16);
+   if (d <= SILK_MAX_ORDER_LPC) memcpy(verif_fit_snap, ar, d * sizeof(opus_int32));
+   verif_fit_calls++;
+}
 static void verif_LPC_fit(opus_int16 *a_QOUT, opus_int32 *a_QIN, const opus_int QOUT, const opus_int QIN, const opus_int d)
 {
    int k;
    verif_snap_n = -1;
+   verif_fit_calls = 0;
+   if (d <= SILK_MAX_ORDER_LPC) memcpy(verif_fit_snap, a_QIN, d * sizeof(opus_int32));
    silk_LPC_fit(a_QOUT, a_QIN, QOUT, QIN, d);
-   /* after the call a_QIN holds the values the casts were applied to (clip branch: a_QOUT << (QIN-QOUT)) */
-   for (k = 0; k < d; k++) if ((long long)a_QOUT[k] != vrr64(a_QIN[k], QIN - QOUT)) verif_trunc++;
+   /* the cast operands, recomputed in 64 bits from the coefficients the final loop read: after 10 expansions
+      the code clips (silk_SAT16) before the cast, otherwise it casts silk_RSHIFT_ROUND directly */
+   for (k = 0; k < d && d <= SILK_MAX_ORDER_LPC; k++) {
+      long long op = vrr64(verif_fit_snap[k], QIN - QOUT);
+      if (verif_fit_calls >= 10) op = op > 32767 ? 32767 : op < -32768 ? -32768 : op;
+      if ((long long)a_QOUT[k] != op) verif_trunc++;
+   }
 }
 static void verif_bwexpander_32(opus_int32 *ar, const opus_int d, opus_int32 chirp_Q16)
 {
